@@ -28,9 +28,21 @@ func genRetryManual(r *Rng, prop string) *Scenario {
 	// connections
 	for k := 1; k <= nconn; k++ {
 		t := int64(k-1) * period
-		if k > 1 {
+		overlap := prop == "C17" && k > 1 && r.chance(0.4)
+		if k > 1 && !overlap {
 			// the application drops the old transport before installing a new one
 			sc.Ops = append(sc.Ops, Op{AtUs: t - 50, Actor: -1, Kind: "close"})
+		}
+		if overlap {
+			// ... or leaves it to the broker (session take-over by the new CONNECT):
+			// a message that arrives on the old connection after SetClient installed
+			// the new one still belongs to the registered handler
+			q := byte(r.IntN(2))
+			o := Out{Conn: k - 1, AtUs: t - cfg.LatB2CUs + 8, Kind: "pkt", Pkt: &Pkt{Type: TPublish, Topic: "a/x", QoS: q, Pay: fmt.Sprintf("inold%d", k)}}
+			if q > 0 {
+				o.Pkt.ID = uint16(200 + k)
+			}
+			sc.Script = append(sc.Script, o)
 		}
 		sc.Ops = append(sc.Ops, Op{AtUs: t, Actor: 0, Kind: "setclient"})
 		gap := int64(0)
